@@ -699,6 +699,23 @@ impl<'a> Exec<'a> {
                 if !uncles.is_empty() {
                     self.out.count("block_with_uncles");
                 }
+                // what the transaction graph of this block exercises
+                {
+                    let ab = &self.ablocks[&id];
+                    for t in &ab.txs {
+                        self.out.count("committed_tx");
+                        let at = &self.atxs[t];
+                        if at.inputs.iter().any(|(p, _)| ab.txs.contains(p)) {
+                            self.out.count("in_block_create_and_spend");
+                        }
+                        if self.ablocks.values().any(|o| o.id != id && o.txs.contains(t)) {
+                            self.out.count("tx_committed_on_two_branches");
+                        }
+                        if at.inputs.iter().any(|(p, _)| *p >= CB_BASE) {
+                            self.out.count("cellbase_output_spent");
+                        }
+                    }
+                }
                 let d = self.observe();
                 self.out.op(line, &format!("{} {}", res, d));
             }
@@ -729,19 +746,38 @@ impl<'a> Exec<'a> {
         self.snaps.len()
     }
 
-    /// stop the node (dropping every snapshot that pins the database) and open it again
-    pub fn restart(&mut self) {
+    /// stop the node, dropping every snapshot that pins the database
+    pub fn stop_node(&mut self) {
         if let Some(mut r) = self.reader.take() {
             r.stop.store(true, Ordering::Relaxed);
             r.jh.take().unwrap().join().unwrap();
         }
         self.snaps.clear();
-        let node = self.node.take().expect("node");
-        let (dir, consensus) = (node.dir.clone(), node.consensus.clone());
-        node.stop();
-        let anc = dir.parent().unwrap().join("ancient");
-        self.node = Some(if self.ancient { Node::start_with_ancient(&dir, consensus, &self.cfg, Some(anc)) } else { Node::start(&dir, consensus, &self.cfg) });
+        if let Some(node) = self.node.take() {
+            node.stop();
+        }
+    }
+
+    /// open the node of this case again on its directory
+    pub fn start_node(&mut self) {
+        let dir = self.base.join(format!("case-{}", self.case_no));
+        let consensus = make_consensus(&self.cfg);
+        self.node = Some(if self.ancient {
+            Node::start_with_ancient(&dir.join("node"), consensus, &self.cfg, Some(dir.join("ancient")))
+        } else {
+            Node::start(&dir.join("node"), consensus, &self.cfg)
+        });
         self.start_reader();
+    }
+
+    pub fn case_dir(&self) -> PathBuf {
+        self.base.join(format!("case-{}", self.case_no))
+    }
+
+    /// stop the node and open it again
+    pub fn restart(&mut self) {
+        self.stop_node();
+        self.start_node();
     }
 }
 
@@ -1034,9 +1070,9 @@ pub fn run(opts: &Opts) {
             ex.end_case();
         } else {
             let mut rng = Rng::new(opts.seed);
-            let cases = if opts.thorough() { 220 } else { 22 } * opts.scale;
+            let cases = if opts.thorough() { 80 } else { 22 } * opts.scale;
             for c in 0..cases {
-                let blocks = if opts.thorough() { rng.range(20, 200) } else { rng.range(20, 60) };
+                let blocks = if opts.thorough() { rng.range(20, 160) } else { rng.range(20, 60) };
                 gen_case(&mut ex, &mut rng, c, blocks);
             }
         }
